@@ -17,7 +17,7 @@ VOCAB = {
  "fix-math-isclose": {"kw": V("abs_tol"), "const": V("0", "0\\.0", "1e-09")},
  "harden-ruamel": {"const": V("'unsafe'", "'base'", "'safe'")},
  "harden-pyyaml": {"attr": V("UnsafeLoader", "Loader", "BaseLoader", "FullLoader", "SafeLoader"), "name": V("UnsafeLoader", "Loader", "BaseLoader", "FullLoader", "SafeLoader", "yaml", "@alias"), "kw": V("Loader"), "import": V(ANYIMPORT), "from": V("yaml")},
- "safe-lxml-parser-defaults": {"kw": V("resolve_entities"), "const": V("False", "True")},
+ "safe-lxml-parser-defaults": {"kw": V("resolve_entities", "no_network", "dtd_validation"), "const": V("False", "True")},
  "safe-lxml-parsing": {"kw": V("parser", "resolve_entities"), "const": V("None", "False"), "attr": V("XMLParser", "etree"), "name": V("lxml"), "import": V("lxml\\.etree")},
  "secure-flask-cookie": {"kw": V("secure", "httponly", "samesite"), "const": V("True", "False", "None", "'Lax'", "'Strict'", "'None'")},
  "secure-random": {"name": V("random", "secrets", "@alias", "@fromname"), "attr": V("SystemRandom", "@fromname"), "import": V(ANYIMPORT), "from": V("random")},
@@ -54,9 +54,19 @@ SHAPES = {  # label -> text appended to the argument list of EVERY call of the s
     "extra-keyword+trailing-comma": ["vf_extra=VF_EXTRA_VALUE", ","],
 }
 EXPLODED_OF = ("star-args", "double-star", "star-and-keyword-and-double-star", "extra-keyword")   # these shapes are also produced in black's exploded layout
-def shapes(src):
+def vocab_keywords(cm):
+    """the keyword names the codemod sets, taken from its documented vocabulary"""
+    rx = VOCAB.get(cm, {}).get("kw")
+    return [k for k in rx.pattern[4:-2].split("|") if re.fullmatch(r"[A-Za-z_]\w*", k)] if rx else []
+
+def shapes(src, cm=None):
     """call-shape variants of a seed: extra arguments appended to (or, for keyword-first, inserted into) every call"""
     out = [("orig", src)]
+    # the codemod's own keywords already present, with an unsafe value, in ascending / descending / partial order ("existing unsafe value")
+    kws = vocab_keywords(cm) if cm else []
+    local_shapes = dict(SHAPES)
+    for label, order in (("preset-keywords-ascending", kws), ("preset-keywords-descending", kws[::-1]), ("preset-first-two", kws[:2]), ("preset-last-two-reversed", kws[-2:][::-1])) if len(kws) >= 2 else ():
+        local_shapes[label] = [f"{k}=False" for k in order]
     try: tree = ast.parse(src)
     except SyntaxError: return out
     lines = src.splitlines(keepends=True)
@@ -66,7 +76,7 @@ def shapes(src):
         return starts[line - 1] + len(lines[line - 1].encode("utf-8")[:col].decode("utf-8", "ignore"))
     calls = [n for n in ast.walk(tree) if isinstance(n, ast.Call) and not (isinstance(n.func, ast.Name) and n.func.id.startswith("vf_"))]
     if not calls: return out
-    for label, extra in SHAPES.items():
+    for label, extra in local_shapes.items():
         edits = []
         for n in calls:
             close = off(n.end_lineno, n.end_col_offset) - 1
@@ -80,6 +90,7 @@ def shapes(src):
                 edits.append((pos, "vf_first_kw=VF_FIRST_VALUE, "))
                 continue
             if any(k.arg is None for k in n.keywords) and any(e.startswith("*") and not e.startswith("**") for e in extra): continue   # nothing positional may follow **
+            if label.startswith("preset-") and ({k.arg for k in n.keywords} & {e.split("=")[0] for e in extra} or not (isinstance(n.func, ast.Attribute) or isinstance(n.func, ast.Name))): continue
             j = close - 1
             while j >= 0 and src[j] in " \t\r\n": j -= 1
             trailing = "," if extra[-1] == "," else ""
@@ -114,7 +125,7 @@ def plan(tier, seed):
             if s is None: continue
             # extra untouched material that must survive: a marker call with unique identifiers and literals
             mixed = gen.mixed_imports(s) if c == "module" else None
-            for shape, s1 in shapes(s) + ([("mixed-import-bindings", mixed)] if mixed else []):
+            for shape, s1 in shapes(s, r["codemod"].split("/")[1]) + ([("mixed-import-bindings", mixed)] if mixed else []):
                 if shape not in ("orig", "mixed-import-bindings") and (not with_shapes or c != ("module" if tier == "quick" else c) or c not in ("module", "def")): continue
                 s2 = s1 + ("\n" if not s1.endswith("\n") else "") + "vf_marker_fn(vf_arg_one, 'vf literal', 4242, vf_kw=vf_arg_two)\n"
                 by[r["codemod"]].setdefault(hashlib.sha1(s2.encode()).hexdigest()[:12], (c + "/" + shape, s2))
@@ -149,8 +160,15 @@ def judge(job, res):
         if not t or not t.startswith("F:"): continue
         after = unb(t[2:]).decode("utf-8", "replace")
         if after == src: continue
-        try: ta, tb = O.tokens(src), O.tokens(after)
-        except SyntaxError: st["unparseable"] += 1; continue
+        try: ta = O.tokens(src)
+        except SyntaxError: st["input_unparseable"] += 1; continue
+        try:
+            tb = O.tokens(after)
+            if O.parses(src)[0] == "compile" and O.parses(after)[0] != "compile": raise SyntaxError(O.parses(after)[1])     # e.g. "keyword argument repeated" is raised by the compiler, not by ast.parse
+        except SyntaxError as ex:
+            # the rewritten file does not even parse: whatever was written is not "the documented edit and nothing else"
+            lab_ = (job.get("labels", {}).get(name) or "?/orig").split("/", 1)[1]
+            v.append(Violation("C16", f"{cm}/output-unparseable/{lab_}", f"rewritten file no longer parses: {ex}", {"codemod": job["cid"], "before": src, "after": after, "shape": lab_})); nt.append((job["id"], name)); continue
         nt.append((job["id"], name)); st["fired:" + job["cid"]] += 1
         al, fr = imported_names(src)
         def allowed(kind, val):
